@@ -11,6 +11,7 @@ FAMILIES = {
     'bw_spin': ('bw|spin|{prog}|{lim}', {'step_limit'}, [0, 1, 2, 3, 5, 8, 13, 30, 100, 300]),
     'rec': ('rec|{prog}|{lim}', {'limit'}, [1, 2, 3, 5, 9, 17, 50, 300, 2000]),
     'quick': ('quick|{prog}|{lim}', None, [0, 1, 2, 3, 5, 9, 17, 50, 300, 2000]),
+    'prover': ('prover|{prog}|{lim}', None, [0, 1, 2, 3, 5, 9, 17, 50, 300, 2000]),      # run_prover (C15_prover_mono)
 }
 OPTIONAL = {
     'cps_halt': ('cps|halt|{prog}|{lim}', {'0'}, [2, 3, 4, 5, 6, 7, 8, 9, 10, 11, 12]),
@@ -24,7 +25,7 @@ OPTIONAL = {
 
 def is_limit(fam, ans):
     lim = dict(FAMILIES, **OPTIONAL)[fam][1]
-    if lim is None:            # quick: first field xlimit
+    if lim is None:            # quick, prover: first field xlimit
         return ans.startswith('xlimit')
     return ans in lim
 
